@@ -4,11 +4,13 @@ C17 — the fragment `W` on which token preservation and idempotence are PROVED
 
   plain words · arbitrary blanks / tabs / newlines / other Unicode white space (no CR) ·
   nested blocks written `… {⏎ … ⏎}` — an opening brace is the last word of its line (or the
-  very first word of the file), a closing brace is alone on its line.
+  very first word of the file), a closing brace is alone on its line ·
+  comments `# …` (on their own line or after a word; any text without backtick or backslash,
+  no trailing blanks) — not directly after `{` / `}` on the same line, not directly before a `{`.
 
-Everything else (quotes, backquotes, heredocs, comments, escapes, `<`, `#`, braces glued to
+Everything else (quotes, backquotes, heredocs, escapes, `<`, `#` inside words, braces glued to
 words, one-line blocks, CR, BOM …) is excluded; most of it is excluded because the property is
-FALSE there (Witness.lean, known_findings.jsonl), the rest (comments, quoted tokens, heredocs,
+FALSE there (Witness.lean, known_findings.jsonl), the rest (quoted tokens, heredocs,
 placeholders, continuations) because the proof has not been extended to it.
 
 A file is cut into chunks = (white-space run, following word).  `inW` is a decidable predicate
@@ -27,17 +29,27 @@ def plainCh (c : Rune) : Bool :=
 /-- white space other than CR (which the lexer ignores instead of ending the token) -/
 def wsCh (c : Rune) : Bool := isSpace c && c != rCR
 
+/-- a character of a comment's text: anything but newline, backtick (toggles the formatter's
+    `withinBackquote`) and backslash (makes the lexer continue the line) -/
+def cmtCh (c : Rune) : Bool := c != rNL && c != rBQ && c != rBS
+
+/-- last element of `d :: l` -/
+def lastOf (d : Rune) : List Rune → Rune
+  | [] => d
+  | c :: cs => lastOf c cs
+
 inductive Kind where
-  | plain | opn | cls
+  | plain | opn | cls | cmt
 deriving DecidableEq, Repr
 
 structure Chunk where
   sep : List Rune     -- white space before the word
-  word : List Rune
+  word : List Rune    -- a word, or a whole comment `#…` up to (excluding) the end of its line
 deriving DecidableEq, Repr
 
 def Chunk.kind (c : Chunk) : Kind :=
-  if c.word = [rOpen] then .opn else if c.word = [rClose] then .cls else .plain
+  if c.word = [rOpen] then .opn else if c.word = [rClose] then .cls
+  else if c.word.head? = some rHash then .cmt else .plain
 
 /-- number of newlines in the separator -/
 def Chunk.nl (c : Chunk) : Nat := countNL c.sep
@@ -46,34 +58,47 @@ def flatten : List Chunk → List Rune
   | [] => []
   | c :: cs => c.sep ++ (c.word ++ flatten cs)
 
-/-- the word is `{`, `}` or a non-empty run of plain characters -/
+/-- the word is `{`, `}`, a comment without trailing blank, or a non-empty run of plain characters -/
 def Chunk.wordOK (c : Chunk) : Bool :=
-  c.word == [rOpen] || c.word == [rClose] || (!c.word.isEmpty && c.word.all plainCh)
+  c.word == [rOpen] || c.word == [rClose] ||
+  (match c.word with
+   | [] => false
+   | h :: t => (h == rHash && t.all cmtCh && !isSpace (lastOf h t)) || (plainCh h && t.all plainCh))
 
 /-- well-formedness of the chunk list, given the kind of the previous word
     (`none` = this is the first word of the file) -/
 def goodFrom : Option Kind → List Chunk → Bool
-  | prev, [] => prev == some .plain || prev == some .cls      -- non-empty, not ending in a dangling `{`
+  | prev, [] => prev == some .plain || prev == some .cls || prev == some .cmt   -- non-empty, no dangling `{`
   | prev, c :: cs =>
     c.sep.all wsCh && c.wordOK &&
     (match prev with
      | none => c.sep.isEmpty && c.kind != .cls
      | some .plain => !c.sep.isEmpty &&
-        (match c.kind with | .opn => c.nl == 0 | .cls => decide (c.nl ≥ 1) | .plain => true)
+        (match c.kind with | .opn => c.nl == 0 | .cls => decide (c.nl ≥ 1) | _ => true)
+     | some .cmt => c.sep.head? == some rNL && c.kind != .opn
      | some _ => decide (c.nl ≥ 1) && c.kind != .opn) &&
     goodFrom (some c.kind) cs
 
-/-- cutting a string into chunks: `cur` = the chunk being built (reversed fields) -/
-def cut : List Rune → (sep word : List Rune) → List Chunk × List Rune
-  | [], sep, word => if word.isEmpty then ([], sep.reverse) else ([⟨sep.reverse, word.reverse⟩], [])
-  | c :: rest, sep, word =>
-    if isSpace c then
-      if word.isEmpty then cut rest (c :: sep) []
-      else ((⟨sep.reverse, word.reverse⟩ :: (cut rest [c] []).1), (cut rest [c] []).2)
-    else cut rest sep (c :: word)
+/-- cutting a string into chunks: `sep`, `word` = the chunk being built (reversed); `inCmt` = the
+    word is a comment (it runs to the end of the line; its trailing blanks go to the next separator) -/
+def cut : List Rune → (sep word : List Rune) → (inCmt : Bool) → List Chunk × List Rune
+  | [], sep, word, inCmt =>
+    if word.isEmpty then ([], sep.reverse)
+    else if inCmt then ([⟨sep.reverse, (word.dropWhile isSpace).reverse⟩], (word.takeWhile isSpace).reverse)
+    else ([⟨sep.reverse, word.reverse⟩], [])
+  | c :: rest, sep, word, inCmt =>
+    if inCmt then
+      if c == rNL then
+        (⟨sep.reverse, (word.dropWhile isSpace).reverse⟩ :: (cut rest (c :: word.takeWhile isSpace) [] false).1,
+          (cut rest (c :: word.takeWhile isSpace) [] false).2)
+      else cut rest sep (c :: word) true
+    else if isSpace c then
+      if word.isEmpty then cut rest (c :: sep) [] false
+      else ((⟨sep.reverse, word.reverse⟩ :: (cut rest [c] [] false).1), (cut rest [c] [] false).2)
+    else cut rest sep (c :: word) (word.isEmpty && c == rHash)
 
 /-- chunks and trailing white space of a string -/
-def chunksOf (x : List Rune) : List Chunk × List Rune := cut x [] []
+def chunksOf (x : List Rune) : List Chunk × List Rune := cut x [] [] false
 
 /-- drop the leading white space of the first chunk (what `TrimSpace` does) -/
 def dropLead : List Chunk → List Chunk
@@ -96,20 +121,23 @@ def nlsN (n : Nat) : List Rune := List.replicate n rNL
 
 /-- nesting after a word of the given kind (cap 10, floor 0) -/
 def nextN (N : Nat) : Kind → Nat
-  | .opn => min (N + 1) 10
+  | .opn => if N < 10 then N + 1 else N
   | .cls => N - 1
-  | .plain => N
+  | _ => N
 
-/-- the separator `Format` writes before chunk `c`; `N` = nesting after the previous word -/
+/-- the separator `Format` writes before chunk `c`; `N` = nesting after the previous word.
+    After a comment the first newline is the one that ends the comment. -/
 def canonSep (prev : Option Kind) (N : Nat) (c : Chunk) : List Rune :=
   match prev with
   | none => []
   | some .opn => rNL :: tabsN (if c.kind = .cls then N - 1 else N)
+  | some .cmt =>
+    if c.kind = .cls then rNL :: tabsN (N - 1) else rNL :: (nlsN (min (c.nl - 1) 2) ++ tabsN N)
   | some _ =>
     match c.kind with
     | .opn => [rSP]
     | .cls => rNL :: tabsN (N - 1)
-    | .plain => if c.nl = 0 then [rSP] else nlsN (min c.nl 2) ++ tabsN N
+    | _ => if c.nl = 0 then [rSP] else nlsN (min c.nl 2) ++ tabsN N
 
 def canon : Option Kind → Nat → List Chunk → List Chunk
   | _, _, [] => []
